@@ -10,6 +10,20 @@ try:
     gen_tables.generate_all()
 except ImportError:
     pass
+def write_roots():
+    """root modules importing every project module, so that a bare `lake build` checks everything"""
+    lean = os.path.join(VERIF, "lean")
+    mods = []
+    for d, _, files in os.walk(os.path.join(lean, "CCVerif")):
+        for f in sorted(files):
+            if f.endswith(".lean"):
+                mods.append(os.path.relpath(os.path.join(d, f), lean)[:-5].replace(os.sep, "."))
+    with open(os.path.join(lean, "CCVerif.lean"), "w") as fh:
+        fh.write("".join("import %s\n" % m for m in sorted(mods)))
+    dm = [f[:-5] for f in sorted(os.listdir(os.path.join(lean, "Driver"))) if f.endswith(".lean")]
+    with open(os.path.join(lean, "Driver.lean"), "w") as fh:
+        fh.write("".join("import Driver.%s\n" % m for m in dm))
+write_roots()
 r = subprocess.run(["lake", "build"], cwd=os.path.join(VERIF, "lean"))
 d = build_impl.build()
 sys.exit(0 if (r.returncode == 0 and d) else 1)
